@@ -1,9 +1,42 @@
+import SwayVerif.Model.PassSeq
 import SwayVerif.Driver.Util
-/-! Driver for C04 (stub — replace `answer`; keep `run`). -/
+/-!
+Driver for C04. Case: `seq <module id> <pass,pass,…>`; implementation result:
+`ok | passerr@k:<pass>:<class> | verifyfail@k:<pass>:<class> | panic@k:<pass>:<class> | hang@k:<pass> |
+ abort@k:<pass> | initfail:<class>` followed by `mod=<n> len=<n> src=<kind>`. `skip <id> ;; <reason>` lines carry no verdict.
+The verdict of the real verifier after every real pass IS the oracle; the driver evaluates the property
+predicate `PassSeq.propHolds` on it.
+-/
 namespace SwayVerif.Driver.C04
-open SwayVerif.Driver
+open SwayVerif.PassSeq SwayVerif.Driver
 
-def answer (_line : String) : String := "unimplemented agree=0 prop=0"
+def verdictOf (t : String) : Option Verdict :=
+  if t = "ok" then some .ok
+  else if t.startsWith "passerr@" then some .passErr
+  else if t.startsWith "initfail:" then some .initFail
+  else if t.startsWith "verifyfail@" then some .verifyFail
+  else if t.startsWith "panic@" then some .panic
+  else if t.startsWith "hang@" then some .hang
+  else if t.startsWith "abort@" then some .abort
+  else none
+
+def kvOf (ts : List String) (k : String) : String :=
+  match ts.find? (·.startsWith (k ++ "=")) with
+  | some t => (t.drop (k.length + 1)).toString
+  | none => ""
+
+def answer (line : String) : String :=
+  let (c, i) := splitCase line
+  match c, i with
+  | "seq" :: _ :: _, v :: rest =>
+    match verdictOf v with
+    | some vd =>
+      let cls := ((v.splitOn "@").headD v |>.splitOn ":").headD v
+      let pass := if cls = "ok" || cls = "initfail" then "-" else (((v.splitOn ":").drop 1).headD "-")
+      s!"checked agree=1 prop={b01 (propHolds vd)} verdict={cls} pass={pass} src={kvOf rest "src"} len={kvOf rest "len"}"
+    | none => "bad-verdict agree=0 prop=0"
+  | "skip" :: _, _ => "info agree=1 prop=1 verdict=skip"
+  | _, _ => "bad-op agree=0 prop=0"
 
 def run : IO Unit := do
   lineLoop (← IO.getStdin) (← IO.getStdout) answer
